@@ -617,4 +617,38 @@ def Restored (tgt : Db) (σ : Sigma) (s : Nat) (sn : Node) (b e : Nat) : Prop :=
       n.block = some (σ.get b) ∧ n.endblk = some (σ.get e) ∧ n.content = (sn.content.map σ.get).filter (· ≠ 0)) ∧
     (n.handle ≠ σ.get s → n.handle ∈ ownedCopies σ sn b e → n.owner = σ.get s)
 
+/-! ### the allocation of CopyMachine (final round): `WF` is established, not assumed -/
+
+/-- decidable form of `WF`: applied by the driver to the allocation the REAL CopyMachine made (stream X7) -/
+def wfB (d : Docs) (σ : Sigma) : Bool :=
+  σ.all (fun e => (d.src.find e.1).isSome) && σ.all (fun e => !d.tgt.handles.contains e.2) && σ.all (fun e => e.2 != 0) &&
+    decide (σ.map (·.2)).Nodup && decide (σ.map (·.1)).Nodup && !d.tgt.handles.contains 0
+
+/-- `_Registry.add_entity` over the requests of the loading commands and of `register_resources`: `source_blocks[key]` is a dict, a
+    handle that is already registered is skipped (`if entity_handle in block: return`), a handle without source entity is not
+    registered (`add_handle`: `entity is None`) -/
+def registerInto (src : Db) (acc : List Nat) : List Nat → List Nat
+  | [] => acc
+  | h :: rest => registerInto src (if acc.contains h || !(src.find h).isSome then acc else acc ++ [h]) rest
+
+def registered (src : Db) (req : List Nat) : List Nat := registerInto src [] req
+
+/-- `CopyMachine.copy_block`: the registered entities are copied in registration order, `factory.bind` gives the i-th clone the handle
+    `hs[i]` that `entitydb.next_handle()` handed out -/
+def allocate (reg hs : List Nat) : Sigma := reg.zip hs
+
+/-- what the handle generator of a valid target guarantees (C04 / C05: every handle of the document is below `$HANDSEED`; the
+    generator never hands a handle out twice): the new handles are pairwise distinct and not below the seed -/
+def allocOkB (d : Docs) (σ : Sigma) (seed : Nat) : Bool :=
+  decide (0 < seed) && d.tgt.handles.all (fun t => decide (0 < t) && decide (t < seed)) &&
+    decide (σ.map (·.2)).Nodup && σ.all (fun e => decide (seed ≤ e.2)) && (registered d.src (σ.map (·.1)) == σ.map (·.1))
+
+/-- the registration list of §5 that the decisions of §4 induce: entry i of the copied table entries (name, source handle) with
+    decision i; an entry whose registration raised is not registered -/
+def regsOf : List (Str × Nat) → List Decision → List (Nat × Reg)
+  | (_, s) :: es, .useExisting h :: ds => (s, .keepExisting h) :: regsOf es ds
+  | (_, s) :: es, .add _ :: ds => (s, .addNew) :: regsOf es ds
+  | _ :: es, .error :: ds => regsOf es ds
+  | _, _ => []
+
 end EzdxfVerif.Xref
